@@ -1,0 +1,16 @@
+//go:build verif
+
+package hdkeychain
+
+// Contracts for govc (see /verif/DESIGN.md, C03 / C18). Comment-only; compiled only with -tags verif.
+
+//@ func zero
+//@   modifies b[:]
+//@   ensures zeroed: forall j int :: 0 <= j && j < len(b) ==> b[j] == 0
+//@   loop i invariant zeroed-prefix: 0 <= i && i <= lenb && lenb == len(b) && (forall j int :: 0 <= j && j < i ==> b[j] == 0)
+//@   loop i decreases lenb - i
+
+//@ func (*ExtendedKey).Zero
+//@   modifies k.key, k.version, k.depth, k.childNum, k.isPrivate, elems(byte)
+//@   ensures key-bytes-wiped: forall j int :: 0 <= j && j < len(old(k.key)) ==> old(k.key)[j] == 0
+//@   ensures key-dropped: k.key == nil && !k.isPrivate
